@@ -206,7 +206,7 @@ static void random_state(vj::Rng& rng, int sidx, const Plan& p) {
   if (p.index >= 0) g_in.gp[p.index] = 0;     // index contributes 0: the effective address is the base + disp (disp 0 or 64)
 }
 
-struct Dep { char t; int id; uint64_t m; uint32_t of; int nf; int lo, hi; };
+struct Dep { char t; int id; uint64_t m; uint32_t of; int nf; int lo, hi; uint64_t pt; };
 
 static uint32_t rwflags_of(uint64_t rf) {       // rflags bits -> CpuRWFlags encoding
   uint32_t r = 0;
@@ -216,15 +216,20 @@ static uint32_t rwflags_of(uint64_t rf) {       // rflags bits -> CpuRWFlags enc
 
 // compares two executions (base b with input bi, perturbed q with input qi).  `kind`/`id`/`pm` name the perturbed location so that
 // pass-through bytes of it are not counted.  Returns (nf, of)
-static void diff_outputs(const Snap& b, const St& bi, const uint8_t* bmi, const Snap& q, const St& qi, const uint8_t* qmi, int& nf, uint32_t& of) {
+// ptm: bytes of the perturbed register (pt_t 'g' / 'v' / 'k', pt_id) that differ between the two runs and are a mere pass-through of
+// the perturbed input in both (the old value shows through: merge-masking, partial writes, conditional writes).  Whether such a byte
+// is a RESULT of the instruction depends on the write mask reported for that register - that is judged by the spec.
+static void diff_outputs(const Snap& b, const St& bi, const uint8_t* bmi, const Snap& q, const St& qi, const uint8_t* qmi, int& nf, uint32_t& of,
+                         char pt_t = 0, int pt_id = -1, uint64_t* ptm = nullptr) {
   nf = 0; of = 0;
+  if (ptm) *ptm = 0;
   for (int r = 0; r < 16; r++) {
     if (b.out.gp[r] == q.out.gp[r]) continue;
     for (int y = 0; y < 8; y++) {
       uint8_t ob = uint8_t(b.out.gp[r] >> (8 * y)), oq = uint8_t(q.out.gp[r] >> (8 * y));
       if (ob == oq) continue;
       uint8_t ib = uint8_t(bi.gp[r] >> (8 * y)), iq = uint8_t(qi.gp[r] >> (8 * y));
-      if (ob == ib && oq == iq) continue;          // pass-through of a perturbed byte
+      if (ob == ib && oq == iq) { if (ptm && pt_t == 'g' && pt_id == r) *ptm |= 1ull << y; continue; }   // pass-through of a perturbed byte
       nf = 1;
     }
   }
@@ -234,7 +239,7 @@ static void diff_outputs(const Snap& b, const St& bi, const uint8_t* bmi, const 
       uint8_t ob = uint8_t(b.out.k[r] >> (8 * y)), oq = uint8_t(q.out.k[r] >> (8 * y));
       if (ob == oq) continue;
       uint8_t ib = uint8_t(bi.k[r] >> (8 * y)), iq = uint8_t(qi.k[r] >> (8 * y));
-      if (ob == ib && oq == iq) continue;
+      if (ob == ib && oq == iq) { if (ptm && pt_t == 'k' && pt_id == r) *ptm |= 1ull << y; continue; }
       nf = 1;
     }
   }
@@ -243,7 +248,7 @@ static void diff_outputs(const Snap& b, const St& bi, const uint8_t* bmi, const 
     for (int y = 0; y < 64; y++) {
       uint8_t ob = b.out.vec[r][y], oq = q.out.vec[r][y];
       if (ob == oq) continue;
-      if (ob == bi.vec[r][y] && oq == qi.vec[r][y]) continue;
+      if (ob == bi.vec[r][y] && oq == qi.vec[r][y]) { if (ptm && pt_t == 'v' && pt_id == r) *ptm |= 1ull << y; continue; }
       nf = 1;
     }
   }
@@ -262,9 +267,9 @@ static void exec_one(const Inst& in, const Plan& p, int states, vj::Rng& rng, vj
   if (!make_stub(in, err)) { w.kv("skip", std::string("assembler:") + err); return; }
   uint64_t gchg[16] = {0}; uint64_t vchg[32] = {0}; uint64_t kchg[8] = {0}; uint32_t fchg = 0; int mlo = 1 << 20, mhi = -(1 << 20);
   std::vector<Dep> deps;
-  auto add_dep = [&](char t, int id, uint64_t m, uint32_t of, int nf, int lo, int hi) {
-    for (Dep& d : deps) if (d.t == t && d.id == id) { d.m |= m; d.of |= of; d.nf |= nf; d.lo = std::min(d.lo, lo); d.hi = std::max(d.hi, hi); return; }
-    deps.push_back(Dep{t, id, m, of, nf, lo, hi});
+  auto add_dep = [&](char t, int id, uint64_t m, uint32_t of, int nf, int lo, int hi, uint64_t pt) {
+    for (Dep& d : deps) if (d.t == t && d.id == id) { if (nf || of) d.m |= m; d.of |= of; d.nf |= nf; d.pt |= pt; d.lo = std::min(d.lo, lo); d.hi = std::max(d.hi, hi); return; }
+    deps.push_back(Dep{t, id, (nf || of) ? m : 0, of, nf, lo, hi, pt});
   };
   int good = 0, faults = 0, lastsig = 0, nondet = 0;
   int disp = 0;
@@ -294,9 +299,9 @@ static void exec_one(const Inst& in, const Plan& p, int states, vj::Rng& rng, vj
       qi.gp[4] = g_in.gp[4];
       if (!sg2) {
         Snap q; snap(q);
-        int nf; uint32_t of;
-        diff_outputs(b, bi, bmi, q, qi, qmi, nf, of);
-        if (nf || of) add_dep(t, id, m, of, nf, lo, hi);
+        int nf; uint32_t of; uint64_t pt = 0;
+        diff_outputs(b, bi, bmi, q, qi, qmi, nf, of, t, id, &pt);
+        if (nf || of || pt) add_dep(t, id, m, of, nf, lo, hi, pt);
       }
       g_in = bi; memcpy(g_mem_in, bmi, kMemSize);
     };
@@ -375,7 +380,9 @@ static void exec_one(const Inst& in, const Plan& p, int states, vj::Rng& rng, vj
   w.key("dep").beginArr();
   for (const Dep& d : deps) {
     char ts[2] = {d.t, 0};
-    w.beginObj().kv("t", (const char*)ts).kv("id", d.id).kv("m", (long long)d.m).kv("of", (long long)d.of).kv("nf", d.nf).kv("lo", d.lo).kv("hi", d.hi).endObj();
+    w.beginObj().kv("t", (const char*)ts).kv("id", d.id).kv("m", (long long)d.m).kv("of", (long long)d.of).kv("nf", d.nf).kv("lo", d.lo).kv("hi", d.hi);
+    w.key("pt").beginArr(); for (int j = 0; j < 8; j++) w.val(int((d.pt >> (8 * j)) & 0xFF)); w.endArr();
+    w.endObj();
   }
   w.endArr();
 }
